@@ -81,8 +81,19 @@ def _on_alarm(_sig, _frm):
     raise _SoftTimeout()
 
 
+def _cpu_of(pid: int) -> float | None:
+    """User+system CPU seconds consumed by a live process (None when it is gone)."""
+    try:
+        with open(f"/proc/{pid}/stat") as f:
+            parts = f.read().rsplit(")", 1)[1].split()
+        return (int(parts[11]) + int(parts[12])) / os.sysconf("SC_CLK_TCK")
+    except (OSError, IndexError, ValueError):
+        return None
+
+
 def install_guard() -> None:
-    signal.signal(signal.SIGALRM, _on_alarm)
+    # budgets are CPU time of the process, not wall clock: a loaded machine must not turn a slow schedule into a verdict
+    signal.signal(signal.SIGPROF, _on_alarm)
     warnings.simplefilter("ignore")
     try:
         import resource
@@ -97,11 +108,11 @@ def guarded(f, *a, _soft=SOFT_S, **kw):
     """('ok', v) | ('raise', e) | ('timeout', None) with a soft wall-clock budget."""
     _beat()
     try:
-        signal.setitimer(signal.ITIMER_REAL, _soft)
+        signal.setitimer(signal.ITIMER_PROF, _soft)
         try:
             return ("ok", f(*a, **kw))
         finally:
-            signal.setitimer(signal.ITIMER_REAL, 0)
+            signal.setitimer(signal.ITIMER_PROF, 0)
     except _SoftTimeout:
         return ("timeout", None)
     except RecursionError as e:
@@ -292,6 +303,15 @@ class Judge:
         r = self.ctx.result()
         if self.reach is not None:
             r["reached"] = {k: v for k, v in self.reach.counts.items() if v}
+        pend = []
+        for case in self.pending_timeouts[:4]:
+            try:
+                pend.append(pickle.dumps(dict(case, input=_plain(case.get("input")))).hex())
+            except Exception:  # noqa: BLE001
+                self.ctx.stat("slow-case-not-picklable")
+        r["pending"] = pend
+        if len(self.pending_timeouts) > 4:
+            r.setdefault("stats", {})["soft-timeouts-not-rerun"] = len(self.pending_timeouts) - 4
         tmp = self.dump_path + ".tmp"
         with open(tmp, "w") as f:
             json.dump(r, f)
@@ -331,16 +351,6 @@ class Judge:
         if self._case is not None:
             self.pending_timeouts.append(dict(self._case, stage=stage))
 
-    def settle_timeouts(self) -> None:
-        ctx = self.ctx
-        for case in self.pending_timeouts[:4]:
-            judge_rerun(ctx, case, rerun_case(case), "soft budget")
-        if len(self.pending_timeouts) > 4:
-            ctx.notes.append(f"{len(self.pending_timeouts)} inputs exceeded the soft budget; 4 were re-run alone")
-            ctx.stat("soft-timeouts-not-rerun", len(self.pending_timeouts) - 4)
-        self.pending_timeouts = []
-
-
 def _same(a, b) -> bool:
     try:
         return type(_plain(a)) is type(_plain(b)) and _plain(a) == _plain(b)
@@ -367,7 +377,7 @@ def judge_rerun(ctx: Ctx, case: dict, res: str, why: str) -> None:
         ctx.notes.append(f"{name} [{stage}]: an input of {size} exceeded the {why} but finished alone within {HARD_S:.0f}s")
     elif res == "hang":
         if size <= MAX_HANG_INPUT:
-            ctx.violation(f"hang@{where}", f"{name} ({stage}, {case.get('mode')}) did not return within {HARD_S:.0f}s, alone in a fresh interpreter, "
+            ctx.violation(f"hang@{where}", f"{name} ({stage}, {case.get('mode')}) did not return within {HARD_S:.0f}s of CPU time, alone in a fresh interpreter, "
                           f"on an input of {size}", {"entry": name, "stage": stage, "how": case.get("mode"), "variant": case.get("variant"),
                                                      "input": replayable(_plain(case.get("input")))})
         else:
@@ -376,26 +386,60 @@ def judge_rerun(ctx: Ctx, case: dict, res: str, why: str) -> None:
         ctx.inconclusive_(f"re-run of a slow {name} input failed: {res}"[:300])
 
 
-def rerun_case(case: dict) -> str:
-    """Run one journalled case (parse and consumers) alone in a fresh interpreter; killed at the hard budget."""
+_RERUNS: list = []
+
+
+def start_rerun(ctx: Ctx, case: dict, why: str) -> None:
+    """Start one journalled case (parse and consumers) alone in a fresh interpreter; judged by ``settle_reruns``."""
+    import shutil
+
     if case.get("unpicklable") or case.get("too_large"):
-        return "case could not be journalled (unpicklable or above 2 MiB)"
-    with tempfile.TemporaryDirectory(prefix="rv-c19-") as td:
-        p = os.path.join(td, "case.pkl")
-        try:
-            with open(p, "wb") as f:
-                pickle.dump(case, f)
-        except Exception as ex:  # noqa: BLE001
-            return f"case not picklable: {ex!r}"[:200]
-        root = os.path.dirname(os.path.dirname(os.path.dirname(os.path.abspath(__file__))))
-        try:
-            r = subprocess.run([sys.executable, "-c", "import sys; from rv.props.c19 import _rerun_main; sys.exit(_rerun_main(sys.argv[1]))", p],
-                               cwd=root, capture_output=True, text=True, timeout=HARD_S)
-        except subprocess.TimeoutExpired:
-            return "hang"
-        if r.returncode == 0:
-            return "finished"
-        return f"rc={r.returncode} {r.stderr[-300:]}"
+        ctx.inconclusive_(f"a slow {case.get('name')} case could not be journalled (unpicklable or above 2 MiB): not re-run")
+        return
+    if sum(1 for c, *_ in _RERUNS if c.get("name") == case.get("name") and c.get("stage") == case.get("stage")) >= 2 or len(_RERUNS) >= 12:
+        ctx.stat("slow-case-not-rerun(cap)")
+        return
+    td = tempfile.mkdtemp(prefix="rv-c19-")
+    p = os.path.join(td, "case.pkl")
+    try:
+        with open(p, "wb") as f:
+            pickle.dump(case, f)
+    except Exception as ex:  # noqa: BLE001
+        shutil.rmtree(td, ignore_errors=True)
+        ctx.inconclusive_(f"a slow {case.get('name')} case is not picklable ({ex!r}): not re-run"[:300])
+        return
+    root = os.path.dirname(os.path.dirname(os.path.dirname(os.path.abspath(__file__))))
+    proc = subprocess.Popen([sys.executable, "-c", "import sys; from rv.props.c19 import _rerun_main; sys.exit(_rerun_main(sys.argv[1]))", p],
+                            cwd=root, stdout=subprocess.DEVNULL, stderr=subprocess.PIPE, text=True)
+    _RERUNS.append((case, proc, time.time(), td, why))
+
+
+def settle_reruns(ctx: Ctx) -> None:
+    """A re-run is a hang once it has burnt HARD_S of CPU time without finishing (wall clock only caps the wait)."""
+    import shutil
+
+    for case, proc, t0, td, why in _RERUNS:
+        res = None
+        while res is None:
+            rc = proc.poll()
+            if rc is not None:
+                err = proc.stderr.read() if proc.stderr else ""
+                res = "finished" if rc == 0 else f"rc={rc} {(err or '')[-300:]}"
+                break
+            cpu = _cpu_of(proc.pid) or 0.0
+            if cpu >= HARD_S:
+                proc.kill()
+                proc.wait()
+                res = "hang"
+            elif time.time() - t0 > 20 * HARD_S:
+                proc.kill()
+                proc.wait()
+                res = f"the machine gave the re-run {cpu:.0f}s of CPU in {20 * HARD_S:.0f}s of wall clock: no verdict"
+            else:
+                time.sleep(0.25)
+        shutil.rmtree(td, ignore_errors=True)
+        judge_rerun(ctx, case, res, why)
+    _RERUNS.clear()
 
 
 def _rerun_main(path: str) -> int:
@@ -479,12 +523,23 @@ def _key(e: Entry, inp) -> tuple:
 
 
 class Budget:
-    def __init__(self, ctx: Ctx, seconds: float):
+    """Wall-clock slice of one entry; never cuts an entry below FLOOR deep inputs (the finalize threshold is 100)."""
+
+    FLOOR = 160
+
+    def __init__(self, ctx: Ctx, seconds: float, floor_counter: str | None = None):
         self.ctx = ctx
         self.end = min(time.time() + seconds, ctx.deadline)
+        self.floor_counter = floor_counter
+        self.hard_end = self.end + 120
 
     def over(self) -> bool:
-        return time.time() > self.end
+        now = time.time()
+        if now <= self.end:
+            return False
+        if self.floor_counter and self.ctx.monitors[self.floor_counter] < self.FLOOR and now < self.hard_end:
+            return False
+        return True
 
 
 def run_binary(J: Judge, e: Entry, quota: int, budget: Budget, sys_cap: int) -> None:
@@ -499,9 +554,11 @@ def run_binary(J: Judge, e: Entry, quota: int, budget: Budget, sys_cap: int) -> 
     corpus: list[tuple[bytes, list, int]] = []
     seen: set = set()
 
+    tail = b"" if e.eof else TAIL    # an EOF-delimited encoding is only ever the whole stream
+
     def fieldmap_of(data: bytes, kw) -> tuple[str, list, object, int]:
         if stream:
-            rs = RecStream(data + TAIL)
+            rs = RecStream(data + tail)
             o = guarded(e.fn, rs, **kw)
             fm = [(a, w) for a, w in rs.fieldmap() if a + w <= len(data)]
             return o[0], fm, rs, rs.tell()
@@ -536,8 +593,8 @@ def run_binary(J: Judge, e: Entry, quota: int, budget: Budget, sys_cap: int) -> 
         deep = False
         accepted_stream = None
         if stream:
-            rs = RecStream(m + TAIL)
-            o = J.call(e, "stream", vi, m, e.fn, rs, **kw)
+            rs = RecStream(m + tail)
+            o = J.call(e, "stream" if tail else "stream0", vi, m, e.fn, rs, **kw)
             ctx.mon("calls:stream")
             if o[0] == "raise":
                 J.exception(e, o[1], m, f"stream+tail {kw or ''} {label}")
@@ -558,7 +615,7 @@ def run_binary(J: Judge, e: Entry, quota: int, budget: Budget, sys_cap: int) -> 
                 if depth < 6 and len(corpus) < 400:
                     fm = [(a, w) for a, w in rs.fieldmap() if a + w <= len(m)]
                     corpus.append((m, fm or guess_fieldmap(m), depth))
-        if stream:
+        if stream and tail:
             # the same octets as a stream that ends with them: a self-delimiting parser that consumed all of them here
             # must stop at the same place, with the same answer, when more octets follow
             rs0 = RecStream(m)
@@ -854,13 +911,24 @@ def run_json(J: Judge, e: Entry, quota: int, budget: Budget, per_path: int | Non
         ctx.classes[f"depth:{min(depth, 6)}"] += 1
         ctx.mon(f"inputs:{e.name}")
 
-    for s in seeds:
+    # every (seed, path) pair in a shuffled order, so that a budget cut thins all fields evenly instead of dropping the last ones
+    pairs = [(s, path) for s in seeds for path in JM.paths(s)]
+    rng.shuffle(pairs)
+    # integer-valued fields first among equals: they carry the counts, amounts and indexes
+    for s, path in pairs:
+        if budget.over():
+            ctx.stat("json:paths-not-reached")
+            continue
         seed_keys = set(s) if isinstance(s, dict) else None
-        for v, lab, path in JM.systematic(s, per_path):
-            if budget.over():
-                break
+        for v, lab in JM.at_path(s, path, per_path):
             test(v, lab, path, 1)
             ctx.classes[f"jsontype:{lab}"] += 1
+        ctx.mon("json:paths-covered")
+    for s in seeds:
+        seed_keys = set(s)
+        test({**s, "unknown-key": 1}, "unknown-key", (), 1)
+    seed_keys = None
+    test({}, "empty-object", (), 1)
     for v in JM.values:
         seed_keys = None
         test(v, "toplevel", (), 1)
@@ -1246,6 +1314,7 @@ def build_registry(S, only: str | None = None) -> list[Entry]:
     def js(name, cls, key, **kw):
         add(name, "json", cls.from_dict, lambda: g(key), variants=CV, **kw)
 
+
     js("Tx.from_dict", Tx, "json_tx", consume=_tx_consumer)
     js("TxIn.from_dict", TxIn, "json_tx_in")
     js("TxOut.from_dict", TxOut, "json_tx_out")
@@ -1253,7 +1322,7 @@ def build_registry(S, only: str | None = None) -> list[Entry]:
     js("Witness.from_dict", Witness, "json_witness")
     js("BlockHeader.from_dict", BlockHeader, "json_block_header")
     js("Block.from_dict", Block, "json_block")
-    js("Psbt.from_dict", Psbt, "json_psbt", consume=_psbt_consumer)
+    js("Psbt.from_dict", Psbt, "json_psbt", consume=_psbt_consumer, weight=3.0)
     js("PsbtIn.from_dict", PsbtIn, "json_psbt_in")
     js("PsbtOut.from_dict", PsbtOut, "json_psbt_out")
     js("BIP32KeyOrigin.from_dict", BIP32KeyOrigin, "json_key_origin")
@@ -1383,24 +1452,10 @@ def run_predicates(J: Judge, only: str | None, quota: int, budget: Budget) -> No
     sib = bytes.fromhex("02" * 32)
     from btclib.hashes import hash256
 
-    root2 = hash256(txid + sib)
+    root2 = hash256(txid[::-1] + sib[::-1])[::-1]
     commitment = pedersen.commit(1, 2)
     rings = [[point_from_key(7), point_from_key(8)], [point_from_key(9)]]
     bor = borromean.sign(b"m", [1, 2], [1, 0], [8, 9], rings)
-    # taproot control block of a one-leaf tree
-    leaf = b"\x51"
-    control_ok = None
-    try:
-        from btclib.script.taproot import output_pubkey
-
-        qk, _par = output_pubkey(xonly, [(0xC0, [leaf_cmd for leaf_cmd in ["OP_1"]])])
-        for par in (0, 1):
-            c = bytes([0xC0 | par]) + xonly
-            if taproot.check_output_pubkey(qk, leaf, c) is True:
-                control_ok = (qk, leaf, c)
-    except Exception:  # noqa: BLE001 - the fixture is optional; its absence is reported by finalize through the counter
-        pass
-
     # slot kinds: O octets, K public key, X x-only/bip340 key, S sig object-or-octets (with its class), A address string, T text/base64 sig,
     # I int, L list of octets, P point
     def octets_like(v: bytes):
@@ -1424,7 +1479,7 @@ def run_predicates(J: Judge, only: str | None, quota: int, budget: Budget) -> No
         if k < 0.5:
             return octets_like(v if isinstance(v, bytes) else pub)
         if k < 0.6:
-            return rng.choice([(0, 0), (1, 1), (5, 0), (P[0], P[1] + 1), (P[0], -P[1]), (2**256, 1), (-1, -1), (P[0],), (), (P[0], P[1], 1), (1.5, 2.5), ("a", "b"), (None, None)])
+            return rng.choice([(0, 0), (1, 1), (5, 0), (P[0], P[1] + 1), (P[0], -P[1]), (2**256, 1), (-1, -1), (0, 1), (P[1], P[0]), (2**600, 2**600)])
         if k < 0.7:
             return rng.choice(["xpub661MyMwAqRbcFtXgS5sYJABqqG9YLmC4Q1Rdap9gSE8NqtwybGhePY2gZ29ESFjqJoCu1Rupje8YtGqsefD265TMg7usUDFdp6W1EGMcet8",
                                "xprv9s21ZrQH143K3QTDL4LXw2F7HEK3wJUD2nW2nRk4stbPy6cq3jPPqjiChkVvvNKmPGJxWUtg6LnF5kejMRNNU3TGtRBeJgk33yuGBxrMPHi",
@@ -1433,8 +1488,8 @@ def run_predicates(J: Judge, only: str | None, quota: int, budget: Budget) -> No
             return rng.choice([0, 1, -1, 2**255, 2**256 - 1, 2**256, P[0]])   # int: declared for BIP340PubKey; for PubKey it is a wrong type
         return v
 
-    def sig_like(v, cls, extra=()):
-        k = rng.random()
+    def sig_like(v, cls, extra=(), octets_ok=True):
+        k = rng.random() if octets_ok else 0.35 + 0.35 * rng.random()
         n = 0xFFFFFFFFFFFFFFFFFFFFFFFFFFFFFFFEBAAEDCE6AF48A03BBFD25E8CD0364141
         if k < 0.35:
             return octets_like(v.serialize())
@@ -1488,8 +1543,8 @@ def run_predicates(J: Judge, only: str | None, quota: int, budget: Budget) -> No
         ("dsa.verify_", dsa.verify_, (mh, pub, dsig), (O, K, ("S", dsa.Sig)), {}),
         ("ssa.verify", ssa.verify, (msg, xonly, ssig), (O, X, ("S", ssa.Sig)), {}),
         ("ssa.verify_", ssa.verify_, (mh, xonly, ssig), (O, X, ("S", ssa.Sig)), {}),
-        ("ssa.batch_verify", ssa.batch_verify, ([msg, msg], [xonly, xonly], [ssig, ssig]), (("L", O), ("L", X), ("L", ("S", ssa.Sig))), {}),
-        ("ssa.batch_verify_", ssa.batch_verify_, ([mh, mh], [xonly, xonly], [ssa.sign_(mh, q), ssa.sign_(mh, q)]), (("L", O), ("L", X), ("L", ("S", ssa.Sig))), {}),
+        ("ssa.batch_verify", ssa.batch_verify, ([msg, msg], [xonly, xonly], [ssig, ssig]), (("L", O), ("L", X), ("L", ("SO", ssa.Sig))), {}),
+        ("ssa.batch_verify_", ssa.batch_verify_, ([mh, mh], [xonly, xonly], [ssa.sign_(mh, q), ssa.sign_(mh, q)]), (("L", O), ("L", X), ("L", ("SO", ssa.Sig))), {}),
         ("bms.verify", bms.verify, (msg, addr, bsig), (O, A, ("B", bms.Sig)), {}),
         ("bms.verify[segwit]", bms.verify, (msg, waddr, bms.sign(msg, q, waddr)), (O, A, ("B", bms.Sig)), {}),
         ("bip322.verify", bip322.verify, (msg, waddr, b322), (O, A, ("B322", None)), {}),
@@ -1502,19 +1557,11 @@ def run_predicates(J: Judge, only: str | None, quota: int, budget: Budget) -> No
         ("engine.tapscript.ssa_verify", et.ssa_verify, (mh, xonly, ssig.serialize()), ("b", "b", "b"), {}),
         ("b32.is_segwit_prefixed", b32.is_segwit_prefixed, (waddr,), (A,), {}),
     ]
-    if control_ok:
-        preds.append(("taproot.check_output_pubkey", taproot.check_output_pubkey, control_ok, (O, O, O), {}))
     for nm in ("is_p2pk", "is_p2pkh", "is_p2sh", "is_p2ms", "is_nulldata", "is_segwit", "is_p2wpkh", "is_p2wsh", "is_p2tr"):
         valid = {"is_p2pk": bytes([33]) + pub + b"\xac", "is_p2pkh": bytes.fromhex("76a914" + "11" * 20 + "88ac"), "is_p2sh": bytes.fromhex("a914" + "11" * 20 + "87"),
                  "is_p2ms": bytes.fromhex("5121") + pub + bytes.fromhex("51ae"), "is_nulldata": bytes.fromhex("6a0548656c6c6f"), "is_segwit": bytes.fromhex("0014" + "11" * 20),
                  "is_p2wpkh": bytes.fromhex("0014" + "11" * 20), "is_p2wsh": bytes.fromhex("0020" + "11" * 32), "is_p2tr": bytes.fromhex("5120") + xonly}[nm]
         preds.append((f"script_pub_key.{nm}", getattr(SPK, nm), (valid,), (O,), {}))
-    try:
-        from btclib.block.proof_of_work import is_negative_bits
-
-        preds.append(("proof_of_work.is_negative_bits", is_negative_bits, (bytes.fromhex("01803456"),), (O,), {}))
-    except ImportError:
-        pass
     dummy = Entry("predicates", "pred", None, [])
 
     def mutate(kind, v):
@@ -1547,6 +1594,8 @@ def run_predicates(J: Judge, only: str | None, quota: int, budget: Budget) -> No
             return [list(r) + [point_from_key(3)] for r in v]
         if isinstance(kind, tuple) and kind[0] == "S":
             return sig_like(v, kind[1])
+        if isinstance(kind, tuple) and kind[0] == "SO":   # declared Sig only (no octets spelling)
+            return sig_like(v, kind[1], octets_ok=False)
         if isinstance(kind, tuple) and kind[0] == "B":
             k = rng.random()
             if k < 0.4:
@@ -1557,7 +1606,7 @@ def run_predicates(J: Judge, only: str | None, quota: int, budget: Budget) -> No
                 return base64.b64encode(octets_bytes(octets_like(v.serialize()))).decode()
             if k < 0.8:
                 try:
-                    return bms.Sig(rng.choice([0, 26, 27, 31, 35, 39, 42, 43, 255, -1, 2**31]), sig_like(v.dsa_sig, dsa.Sig), check_validity=False)
+                    return bms.Sig(rng.choice([0, 26, 27, 31, 35, 39, 42, 43, 255, -1, 2**31]), sig_like(v.dsa_sig, dsa.Sig, octets_ok=False), check_validity=False)
                 except Exception:  # noqa: BLE001
                     return v
             return v
@@ -1638,10 +1687,10 @@ def plan(tier: str, seed: int) -> list[dict]:
         for i in range(n):
             specs.append({"name": f"{grp}-{i}", "fn": "shard_entries", "group": grp, "part": i, "of": n,
                           "sys_cap": 450 if q else 6000, "quota": 700 if q else 40000,
-                          "_budget_s": 95 if q else 1150, "_timeout_s": 700 if q else 3000})
+                          "_budget_s": 55 if q else 1100, "_timeout_s": 900 if q else 3600})
     for i, w in enumerate(("even", "odd")):
         specs.append({"name": f"pred-{i}", "fn": "shard_pred", "which": w, "quota": 7000 if q else 200000,
-                      "_budget_s": 90 if q else 1100, "_timeout_s": 700 if q else 3000})
+                      "_budget_s": 50 if q else 1000, "_timeout_s": 900 if q else 3600})
     if not q:
         specs.append({"name": "atheris", "fn": "shard_atheris", "_budget_s": 900, "_timeout_s": 2400})
     return specs
@@ -1686,17 +1735,20 @@ def _merge(ctx: Ctx, r: dict) -> None:
     ctx.notes.extend(r.get("notes", [])[:6])
 
 
-def supervise(ctx: Ctx, label: str, work, deadline: float) -> None:
-    """Run ``work(child_ctx, J)`` in forked workers under a heartbeat; a stalled worker is killed, its journalled case re-run
-    alone (rule 5), and a new worker resumes with that stage / input excluded."""
+def supervise(ctx: Ctx, items: list) -> None:
+    """Run ``work(child_ctx, J)`` for every (label, work) of ``items`` in one forked worker under a heartbeat.  A worker whose
+    heartbeat stops is killed, its journalled case re-run alone (rule 5), and a new worker resumes at the same item with that
+    stage / input excluded."""
+    import gc
     import mmap
     import random
 
     global _MM, _HB
     skip_stages: set = set()
     skip_inputs: list = []
-    attempt = 0
-    while True:
+    start, attempt = 0, 0
+    gc.freeze()   # keep the inherited heap out of the workers' collectors: fewer copied pages
+    while start < len(items):
         mm = mmap.mmap(-1, _MM_SIZE)
         fd, res_path = tempfile.mkstemp(prefix="rv-c19-res-", suffix=".json")
         os.close(fd)
@@ -1707,23 +1759,27 @@ def supervise(ctx: Ctx, label: str, work, deadline: float) -> None:
             try:
                 _MM, _HB = mm, 0
                 cctx = Ctx(ctx.prop, ctx.tier, ctx.seed, ctx.shard, ctx.params)
-                cctx.rng = random.Random(f"{ctx.prop}:{ctx.seed}:{ctx.shard}:{label}:{attempt}")
-                cctx.deadline = min(ctx.deadline, deadline)
+                cctx.deadline = ctx.deadline
                 reach = _reach()
                 J = Judge(cctx, res_path, skip_stages, skip_inputs, reach)
-                try:
-                    work(cctx, J)
-                    J.settle_timeouts()
-                except _SoftTimeout:
-                    cctx.stat("soft-timeout-outside-guard")
-                except BaseException as ex:  # noqa: BLE001
-                    tb = traceback.format_exc()
-                    org = lib_origin(ex)
-                    if org is not None and not isinstance(ex, (KeyboardInterrupt, SystemExit)):
-                        cctx.violation(f"crash:{type(ex).__name__}@{org}", f"uncaught {type(ex).__name__} from the library while working on {label}: {ex}"[:500],
-                                       {"traceback": tb[-1500:]})
-                    else:
-                        cctx.inconclusive_(f"harness error while working on {label}: {tb[-600:]}")
+                for k in range(start, len(items)):
+                    label, work = items[k]
+                    mm[520:528] = k.to_bytes(8, "little")
+                    cctx.rng = random.Random(f"{ctx.prop}:{ctx.seed}:{ctx.shard}:{label}:{attempt if k == start else 0}")
+                    _beat()
+                    try:
+                        work(cctx, J)
+                    except _SoftTimeout:
+                        cctx.stat("soft-timeout-outside-guard")
+                    except BaseException as ex:  # noqa: BLE001
+                        tb = traceback.format_exc()
+                        org = lib_origin(ex)
+                        if org is not None and not isinstance(ex, (KeyboardInterrupt, SystemExit)):
+                            cctx.violation(f"crash:{type(ex).__name__}@{org}",
+                                           f"uncaught {type(ex).__name__} from the library while working on {label}: {ex}"[:500], {"traceback": tb[-1500:]})
+                        else:
+                            cctx.inconclusive_(f"harness error while working on {label}: {tb[-600:]}")
+                    cctx.mon(f"ran:{label}")
                 reach.stop()
                 J.dump()
             except BaseException:  # noqa: BLE001
@@ -1731,7 +1787,7 @@ def supervise(ctx: Ctx, label: str, work, deadline: float) -> None:
             finally:
                 os._exit(code)
         # ------------------------------------------------------------ supervisor
-        last_hb, last_change = -1, time.time()
+        last_hb, last_change, cpu_at_change = -1, time.time(), 0.0
         status = None
         while True:
             done, st = os.waitpid(pid, os.WNOHANG)
@@ -1740,9 +1796,11 @@ def supervise(ctx: Ctx, label: str, work, deadline: float) -> None:
                 break
             hb = int.from_bytes(mm[0:8], "little")
             now = time.time()
+            cpu = _cpu_of(pid) or 0.0
             if hb != last_hb:
-                last_hb, last_change = hb, now
-            elif now - last_change > STALL_S:
+                last_hb, last_change, cpu_at_change = hb, now, cpu
+            elif cpu - cpu_at_change > STALL_S or now - last_change > 40 * STALL_S:
+                # STALL_S of the worker's own CPU time inside one call the interpreter never came back from
                 os.kill(pid, signal.SIGKILL)
                 os.waitpid(pid, 0)
                 status = "stalled"
@@ -1755,34 +1813,41 @@ def supervise(ctx: Ctx, label: str, work, deadline: float) -> None:
                     part = json.load(f)
             except Exception:  # noqa: BLE001
                 part = None
-            for q in (res_path, res_path + ".tmp"):
-                if os.path.exists(q):
-                    os.unlink(q)
+        for q in (res_path, res_path + ".tmp"):
+            if os.path.exists(q):
+                os.unlink(q)
         if part:
             _merge(ctx, part)
+            for hx in part.get("pending", []):
+                try:
+                    start_rerun(ctx, pickle.loads(bytes.fromhex(hx)), "soft budget")
+                except Exception as ex:  # noqa: BLE001
+                    ctx.inconclusive_(f"a slow case could not be read back: {ex!r}"[:200])
+        at = int.from_bytes(mm[520:528], "little")
+        label = items[min(at, len(items) - 1)][0]
         if status == "done":
             mm.close()
             return
         if status != "stalled":
-            ctx.inconclusive_(f"worker for {label} ended abnormally ({status})")
+            ctx.inconclusive_(f"worker ended abnormally ({status}) while on {label}")
             mm.close()
             return
         case = _read_journal(mm)
         mm.close()
         ctx.stat("worker-stalled")
         if case is None:
-            ctx.inconclusive_(f"worker for {label} stalled before journalling a case")
+            ctx.inconclusive_(f"worker stalled on {label} before journalling a case")
             return
-        res = rerun_case(case)
-        judge_rerun(ctx, case, res, f"{STALL_S:.0f}s heartbeat")
+        start_rerun(ctx, case, f"{STALL_S:.0f}s heartbeat")
         if case.get("stage", "parse") == "parse":
             skip_inputs.append(case)
         else:
             skip_stages.add(case["stage"])
-        attempt += 1
-        if attempt >= 5 or time.time() > deadline:
+        attempt = attempt + 1 if at == start else 1
+        start = at
+        if attempt >= 4:
             ctx.notes.append(f"{label}: gave up resuming after {attempt} stalls")
-            return
+            start, attempt = at + 1, 0
 
 
 def shard_entries(ctx: Ctx) -> None:
@@ -1793,38 +1858,40 @@ def shard_entries(ctx: Ctx) -> None:
     reg = build_registry(S)
     grp, part, of = ctx.params["group"], ctx.params["part"], ctx.params["of"]
     mine = _entries_of(reg, grp)[part::of]
-    t_end = ctx.deadline
+    if ctx.params.get("entry"):   # debugging / replay aid: one entry only
+        mine = [e for e in reg if e.name == ctx.params["entry"]]
+    items = []
     for k, e in enumerate(mine):
-        left = max(1.0, t_end - time.time())
-        rest_w = sum(x.weight for x in mine[k:]) or 1.0
-        slice_s = left * e.weight / rest_w
-        quota = int(ctx.params["quota"] * e.weight)
-
-        def work(cctx: Ctx, J: Judge, e=e, slice_s=slice_s, quota=quota) -> None:
-            budget = Budget(cctx, slice_s)
+        def work(cctx: Ctx, J: Judge, e=e, k=k) -> None:
+            left = max(1.0, cctx.deadline - time.time())
+            rest_w = sum(x.weight for x in mine[k:]) or 1.0
+            budget = Budget(cctx, left * e.weight / rest_w, f"deep:{e.name}")
+            quota = int(cctx.params["quota"] * e.weight)
             if e.kind in ("stream", "octets"):
                 run_binary(J, e, quota, budget, cctx.params["sys_cap"])
             elif e.kind == "text":
                 run_text(J, e, quota, budget, cctx.params["sys_cap"])
             else:
-                run_json(J, e, quota, budget, 40 if cctx.tier == "quick" else None)
+                run_json(J, e, quota, budget, 8 if cctx.tier == "quick" else None)
 
-        supervise(ctx, e.name, work, time.time() + slice_s + 3 * HARD_S)
-        ctx.mon(f"ran:{e.name}")
+        items.append((e.name, work))
+    supervise(ctx, items)
+    settle_reruns(ctx)
 
 
 def shard_pred(ctx: Ctx) -> None:
     install_guard()
     names = [n for i, n in enumerate(PREDICATE_NAMES) if i % 2 == (0 if ctx.params["which"] == "even" else 1)]
     per = max(60, ctx.params["quota"] // max(1, len(names)))
-    t_end = ctx.deadline
+    items = []
     for k, name in enumerate(names):
-        slice_s = max(1.0, t_end - time.time()) / (len(names) - k)
+        def work(cctx: Ctx, J: Judge, name=name, k=k) -> None:
+            slice_s = max(1.0, cctx.deadline - time.time()) / (len(names) - k)
+            run_predicates(J, name, per, Budget(cctx, slice_s, f"deep:{name}"))
 
-        def work(cctx: Ctx, J: Judge, name=name, slice_s=slice_s) -> None:
-            run_predicates(J, name, per, Budget(cctx, slice_s))
-
-        supervise(ctx, name, work, time.time() + slice_s + 3 * HARD_S)
+        items.append((name, work))
+    supervise(ctx, items)
+    settle_reruns(ctx)
 
 
 def _ident_key(x) -> str:
@@ -1916,9 +1983,9 @@ def shard_registry(ctx: Ctx) -> None:
 PREDICATE_NAMES = [
     "dsa.verify", "dsa.verify_", "ssa.verify", "ssa.verify_", "ssa.batch_verify", "ssa.batch_verify_", "bms.verify", "bms.verify[segwit]", "bip322.verify",
     "bip322.verify[legacy-off]", "dleq.verify_proof", "merkle_proof.verify", "pedersen.verify", "borromean.verify", "engine.script.dsa_verify",
-    "engine.tapscript.ssa_verify", "b32.is_segwit_prefixed", "taproot.check_output_pubkey", "script_pub_key.is_p2pk", "script_pub_key.is_p2pkh",
+    "engine.tapscript.ssa_verify", "b32.is_segwit_prefixed", "script_pub_key.is_p2pk", "script_pub_key.is_p2pkh",
     "script_pub_key.is_p2sh", "script_pub_key.is_p2ms", "script_pub_key.is_nulldata", "script_pub_key.is_segwit", "script_pub_key.is_p2wpkh",
-    "script_pub_key.is_p2wsh", "script_pub_key.is_p2tr", "proof_of_work.is_negative_bits",
+    "script_pub_key.is_p2wsh", "script_pub_key.is_p2tr",
 ]
 
 
